@@ -40,8 +40,8 @@ def histSpec (h : List Access) (dss : List (List Nat)) : Bool :=
     (ds.filter fun c => decNode histN c ≠ a.node).map fun c => ⟨decNode histN c, a.node, .stable⟩
   let fuel := h.length + 2
   let ordered := h.zipIdx.all fun (a, i) => (h.drop (i + 1)).all fun c =>
-    !(a.res = c.res && (a.kind.isWrite || c.kind.isWrite)) || reachB es anyLabel fuel a.node c.node
-  let fromStart := h.all fun a => reachB es anyLabel fuel .start a.node
+    !(a.res = c.res && (a.kind.isWrite || c.kind.isWrite)) || (reachFrom es anyLabel a.node).contains c.node
+  let fromStart := h.all fun a => (reachFrom es anyLabel .start).contains a.node
   let justified := (h.zip dss).zipIdx.all fun ((a, ds), i) => ds.all fun c =>
     c == 0 || (h.take i).any fun p => encNode histN p.node == c && p.res == a.res &&
       (p.kind.isWrite || a.kind.isWrite)
